@@ -43,6 +43,7 @@ type Program struct {
 	CacheSize  int                    `json:"cachesize"`
 	Language   string                 `json:"language"`
 	MaxLevel   int                    `json:"maxlevel"`
+	LangSens   bool                   `json:"langsens"` // external results and templates depend on the context language (as translated content does)
 	Nodes      map[string][]Instr     `json:"nodes"`
 	Templates  map[string]string      `json:"templates"`
 	Syms       map[string][]SymResult `json:"syms"`
